@@ -375,10 +375,12 @@ theorem c07_bindings_total_partial (bs : List Binding) (hwt : ∀ b ∈ bs, b.we
 (TIME: `io_size_for_type` says `D`, `coerce_from_io` has no arm) makes `read_inputs` fail with
 `TypeMismatch` on every image: the variable is never `decode(latched bytes)`. -/
 theorem c07_counterexample_time_input (io : Io) (s : Store) :
-    let b : Binding := { target := .ref 0, ty := some .other,
+    let b : Binding := { target := .ref 0, ty := some .time,
                          addr := { area := .input, size := .dword, byte := 0, bit := 0, path := [0], wildcard := false } }
+    expandAt 0 { area := .input, size := .dword, byte := 0, bit := 0, path := [0], wildcard := false } (.elem .time) =
+      some [b] ∧
     b.wellTyped = false ∧ latch io [b] s = (s, some .typeMismatch) := by
-  refine ⟨by decide, ?_⟩
+  refine ⟨by decide, by decide, ?_⟩
   simp only [latch, Binding.isIn, latchValue]
   have : read io { area := .input, size := .dword, byte := 0, bit := 0, path := [0], wildcard := false } =
       .ok (.dword (fromLe (readSpan io.inputs 0 4))) := by simp [read, Io.area]
@@ -415,6 +417,35 @@ example :
   refine ⟨by decide, by decide, ⟨.int (-2), .int, rfl, by simp [Store.set, Target.var], rfl, by simp [Value.WF]⟩,
     by rfl, by rfl⟩
 
+
+/-- **From `x AT base : T` to bindings.**  For an elementary type, a one-dimensional array or a
+structure of elementary fields (of the 17 types) declared at a flat base address with bit index 0..7,
+`collect_io_bindings`/`offset_address` yield one binding per leaf, for the variables
+`first, first+1, …` in order, every one inside the guard `wellTyped` (its size is the size of the
+leaf type whatever the letter of the declaration), in the base's area, and the leaves occupy pairwise
+disjoint storage (adjacent spans laid out one after the other): no leaf overlaps a sibling. -/
+theorem c07_expand_layout (first : Nat) (base : Addr) (sh : Shape) (bs : List Binding)
+    (hbit : base.bit ≤ 7) (h17 : ∀ t ∈ sh.tys, (expectedSize t).isSome = true)
+    (h : expandAt first base sh = some bs) :
+    (∀ b ∈ bs, b.wellTyped = true ∧ b.addr.area = base.area ∧ base.byte ≤ b.addr.byte) ∧
+    bs.Pairwise (fun b b' => b.addr.disjoint b'.addr = true) ∧
+    bs.map (·.target) = (List.range sh.tys.length).map (fun j => Target.ref (first + j)) := by
+  unfold expandAt at h
+  rw [leaves_eq] at h
+  have := expandLeaves_props first base hbit sh.tys 0 0 bs h17 h
+  simpa using this
+
+/-- Non-vacuity: `ARRAY[0..2] OF INT AT %QB4` (letter `B`, leaves `W`) gives `%QW4, %QW6, %QW8`;
+`ARRAY OF BOOL AT %QX0.3` gives bit 3 of bytes 0 and 1; a TIME leaf is outside the guard. -/
+example :
+    (expandAt 7 { area := .output, size := .byte, byte := 4, bit := 0, path := [4], wildcard := false }
+      (.array 3 .int)).map (·.map fun b => (b.target.var, b.addr.size, b.addr.byte, b.addr.bit)) =
+      some [(7, .word, 4, 0), (8, .word, 6, 0), (9, .word, 8, 0)] ∧
+    (expandAt 0 { area := .output, size := .bit, byte := 0, bit := 3, path := [0], wildcard := false }
+      (.array 2 .bool)).map (·.map fun b => (b.addr.size, b.addr.byte, b.addr.bit)) =
+      some [(.bit, 0, 3), (.bit, 1, 3)] ∧
+    (expectedSize .time).isSome = false := by
+  refine ⟨by decide, by decide, by decide⟩
 
 /-! ## The scan cycle: latch once, publish once, nothing in between, nothing on a fault -/
 
